@@ -244,7 +244,11 @@ class FrameQueueFrag(FrameQueue):
                         # External data needs to be propagated back to update()
                         frame.header.message_type = NETWORK_EXT_DATA  # by reference
                     self._frags.header.message_type = frame.header.reserved
-                    return super().enqueue(self._frags)
+                    result = super().enqueue(self._frags)
+                    # the cached message is complete; further fragments need a new
+                    # first fragment (see the "if not just initialized" test above)
+                    self._frags.header.from_node = None  # type: ignore[assignment]
+                    return result
                 return True
             # print("dropping fragment due to missing 1st fragment")
             return False
